@@ -22,7 +22,8 @@
 (*                                                                          *)
 (* Events (k): ptinit U temp proj | map / unmap / mapregion / identity /    *)
 (* maptemp (common fields: pdt via res afail flush newtab proj ah0 ah1) |   *)
-(* translate pg off res pa | pdtinit pdt ... | switch pdt proj | reset      *)
+(* translate pg off res pa | pdtinit pdt ... | switch pdt proj | poke proj   *)
+(* | reset                                                                  *)
 (*  res    "ok" | "enomem" (the injected allocator error came back) |       *)
 (*         "err:<text>" | "panic"                                           *)
 (*  afail  the frame allocator was made to fail during this call            *)
@@ -213,6 +214,11 @@ MonPdtInit(s, e) ==
            cs |-> << <<"C04", ~e.afail /\ e.res # "panic", <<"pdt-init failed without an allocation failure", e.res>> >> >>
                   \o OpChecks(s, e, s.active, T, "pdt-init")]
 
+\* the environment (the CPU setting accessed/dirty, a boot loader setting global/NX/cache bits) ORs flag bits into an
+\* UPPER-level entry or into a root's recursive entry: translations are untouched, nothing for the kernel to answer for
+MonPoke(s, e) ==
+  [s |-> s, cs |-> << <<"HARNESS", e.proj # s.trans, "poke of an upper-level entry changed a translation">> >>]
+
 MonSwitch(s, e) ==
   [s |-> [s EXCEPT !.active = e.pdt],
    cs |-> << <<"HARNESS", e.pdt \notin 1..Len(s.trans), "switch: unknown address space">>,
@@ -228,5 +234,6 @@ Mon(s, e) ==
     [] e.k = "translate" -> MonTranslate(s, e)
     [] e.k = "pdtinit"   -> MonPdtInit(s, e)
     [] e.k = "switch"    -> MonSwitch(s, e)
+    [] e.k = "poke"      -> MonPoke(s, e)
     [] e.k = "reset"     -> [s |-> S0, cs |-> <<>>]
 ====
